@@ -6,7 +6,7 @@
 From Coq Require Import List String NArith ZArith Bool.
 Import ListNotations.
 From TV Require Import Decode.Model Decode.Proofs Decode.ProofsCodes Decode.ProofsRun Decode.ProofsMain
-                       Extracted.Facts Run.DecodeCases.
+                       Extracted.Facts Run.DecodeCases Decode.ProofsCurrent.
 Local Open Scope string_scope.
 
 (* ---- tie to the source ---- *)
@@ -141,6 +141,22 @@ Theorem C16_repaired_never_panics :
   forall o e, pr_must (predict repaired o e) = [] /\ pr_may (predict repaired o e) = [].
 Proof. exact (fun o e => predict_no_panic repaired o e (repaired_all_guards o)). Qed.
 Print Assumptions C16_repaired_never_panics.
+
+(* ---- the tree as it is now: all ten fixes are in /repo, the extracted facts say every guard is present ---- *)
+Theorem C16_current_tree :
+  forall o e, (forall n, o_wc_quoted o n = true) ->
+    pr_must (predict current o e) = [] /\ pr_may (predict current o e) = [].
+Proof. exact current_never_panics. Qed.
+Print Assumptions C16_current_tree.
+
+Theorem C16_current_decode : forall o n s, decode_taskfile current o n <> Panic s.
+Proof. exact current_decode_never_panics. Qed.
+Print Assumptions C16_current_decode.
+
+Theorem C16_current_snippet : forall line pad n_raw n_hl s,
+  snippet_bounds (g_snippet_clamp current) line pad n_raw n_hl <> Panic s.
+Proof. exact current_snippet_in_bounds. Qed.
+Print Assumptions C16_current_snippet.
 
 (* ---- non-vacuity: concrete Taskfiles, one per site, panic in the unguarded tree and not in the repaired one ---- *)
 Example C16_examples :
